@@ -115,8 +115,7 @@ Definition commit_key_f (limit : N) (fs : fstore) (k : bytes) (l : lockrec) (cv 
     match get_write_by_start_ts (f_s fs) k (l_ts l) with
     | Some (w, ct) =>
         if op_eqb (w_kind w) OpRollback then (fs, Some (KEAbort AbRolledBack))
-        else if ct =? cv then (fs, None)
-        else match dbw limit fs CfLock k (fun s => del_lock s k) with
+        else match dbw limit fs CfLock k (fun s => del_lock s k) with   (* finish the interrupted commit *)
              | None => (refused limit fs CfLock k, retry)
              | Some fs1 => (fs1, None)
              end
@@ -210,7 +209,18 @@ Definition check_txn_status_f (limit : N) (fs : fstore) (primary : bytes) (lock_
   match get_lock (f_s fs) primary with
   | Some l =>
       if negb (l_ts l =? lock_ts) then (fs, cr_err (KELocked primary l))
-      else if is_lock_expired l current_ts then
+      else
+      match (match get_write_by_start_ts (f_s fs) primary lock_ts with
+             | Some (w, ct) => if op_eqb (w_kind w) OpRollback then None else Some ct
+             | None => None
+             end) with
+      | Some ct =>      (* committed, only the lock is left: remove it and report the commit *)
+          match dbw limit fs CfLock primary (fun s => del_lock s primary) with
+          | None => (refused limit fs CfLock primary, cr_err KERetryable)
+          | Some fs1 => (fs1, cr_ok ActNone 0 ct)
+          end
+      | None =>
+      if is_lock_expired l current_ts then
         match rollback_key_f limit fs primary lock_ts with
         | (fs1, None) => (fs1, cr_ok ActTTLExpireRollback 0 0)
         | (fs1, Some e) => (fs1, cr_err e)
@@ -223,6 +233,7 @@ Definition check_txn_status_f (limit : N) (fs : fstore) (primary : bytes) (lock_
         | Some fs1 => (fs1, cr_ok ActMinCommitPushed (l_ttl l) 0)
         end
       else (fs, cr_ok ActNone (l_ttl l) 0)
+      end
   | None =>
       match get_write_by_start_ts (f_s fs) primary lock_ts with
       | Some (w, ct) =>
